@@ -288,6 +288,7 @@ def run_shards(camp, modname, fn, _n, **kwargs):
     nshards = _n
     """Run `modname.fn(k, seed_k, tier, **kwargs) -> Campaign.export()` on a pool."""
     import multiprocessing as mp
+    env.workdir()   # create the scratch root in the parent so that it is removed when the parent exits
     jobs = [(modname, fn, k, camp.seed * 1000 + k, camp.tier, kwargs) for k in range(nshards)]
     if nshards == 1:
         res = [_shard_entry(jobs[0])]
